@@ -258,7 +258,8 @@ def config(sc, work, plug=PLUG):
         release=dict(module=plug % "release", release_file=os.path.join(work, "r.rls"), continuous=sc["cont"]),
         ibm=dict(module=plug % "ibm", kill={int(s): [p for s2, p in sc["kill"] if s2 == s] for s, _ in sc["kill"]},
                  freeze={int(s): [p for s2, p in sc.get("freeze", []) if s2 == s] for s, _ in sc.get("freeze", [])},
-                 killfarm={int(s): [p for s2, p in sc.get("killfarm", []) if s2 == s] for s, _ in sc.get("killfarm", [])}),
+                 killfarm={int(s): [p for s2, p in sc.get("killfarm", []) if s2 == s] for s, _ in sc.get("killfarm", [])},
+                 compact=sc.get("ibm_compact", [])),
         output=dict(module=plug % "output", filename=os.path.join(work, sc.get("outname", "out.nc")), output_period=sc["dt"] * sc["ops"],
                     numrec=sc["numrec"], layout=sc["layout"], instance_variables=out_iv),
     )
